@@ -53,6 +53,10 @@ def run : Runner
       let fin := all.foldl (fun m x => Bloom.addMsg m x) m0
       let model := s!"{Bytes.tok fin.bits} 1 1"
       pure { model, prop := "spec" }
+  | "reloadatomic", _, impl =>
+    -- an all-zero filter matches nothing, so in every sequential order of MatchTxAndUpdate / Reload calls nothing is
+    -- ever inserted into it: any set bit in a replaced all-zero message is a non-linearizable history
+    pure { model := "ok", prop := if impl == "ok" then "ok" else "violated:MatchTxAndUpdate not atomic w.r.t. Reload " ++ impl }
   | "gcsconc", _, impl => pure { model := "ok", prop := if impl == "ok" then "ok" else "violated:concurrent GCS queries interfere" }
   | _, _, _ => none
 
